@@ -519,41 +519,171 @@ Proof. unfold read_row. rewrite map_map. cbn [fst]. apply map_id. Qed.
 Lemma row_dict_keys r : map fst (row_dict r) = map fst r.
 Proof. unfold row_dict. rewrite map_map. reflexivity. Qed.
 
-Definition map_inv (n : nat) (T : tab) : Prop := tlen T = n /\ tdflt T = KMixed /\ NoDup (tab_names T).
+Lemma nth_set_nth_same {A} i (x d : A) l : i < List.length l -> nth i (set_nth i x l) d = x.
+Proof. revert i; induction l as [|a l IH]; intros [|i] H; cbn [set_nth nth List.length] in *; try lia; auto. apply IH. lia. Qed.
+Lemma nth_set_nth_other {A} i j (x d : A) l : i <> j -> nth j (set_nth i x l) d = nth j l d.
+Proof.
+  revert i j; induction l as [|a l IH]; intros [|i] [|j] H; cbn [set_nth nth]; try reflexivity; try lia.
+  apply IH. lia.
+Qed.
+Lemma dict_update_keys_incl {A} (u d : list (string * A)) k :
+  In k (map fst (dict_update d u)) -> In k (map fst d) \/ In k (map fst u).
+Proof.
+  unfold dict_update. revert d; induction u as [|[k' v] u IH]; intros d H; cbn [fold_left map fst snd] in *; [auto|].
+  destruct (IH _ H) as [H1|H1]; [|right; right; exact H1]. rewrite dict_set_keys in H1.
+  destruct (existsb (String.eqb k') (map fst d)); [left; exact H1|]. apply in_app_or in H1. destruct H1 as [H1|H1].
+  - left. exact H1.
+  - right. left. destruct H1 as [H1|[]]. exact H1.
+Qed.
+Lemma dict_update_keys_keep {A} (u d : list (string * A)) k :
+  In k (map fst d) -> In k (map fst (dict_update d u)).
+Proof.
+  unfold dict_update. revert d; induction u as [|[k' v] u IH]; intros d H; cbn [fold_left fst snd]; [exact H|].
+  apply IH. rewrite dict_set_keys. destruct (existsb (String.eqb k') (map fst d)); [exact H|]. apply in_or_app. auto.
+Qed.
+Lemma lookup_in {A} k (d : list (string * A)) : In k (map fst d) -> exists v, lookup k d = Some v.
+Proof.
+  induction d as [|[k' v] d IH]; cbn [map fst lookup]; [contradiction|]. intros [->|H].
+  - rewrite String.eqb_refl. eauto.
+  - destruct (String.eqb k k'); [eauto|exact (IH H)].
+Qed.
+Lemma find_col_in_names n cs : In n (map cname cs) -> exists c, find_col n cs = Some c.
+Proof.
+  intros H. apply (proj2 (has_col_true _ _)) in H. unfold has_col in H. destruct (find_col n cs); [eauto|discriminate].
+Qed.
+Lemma add_missing_noop ks T : (forall k, In k ks -> In k (tab_names T)) -> add_missing ks T = T.
+Proof.
+  induction ks as [|k ks IH]; intros H; [reflexivity|]. rewrite add_missing_cons.
+  assert (E : add1 k T = T).
+  { unfold add1. rewrite (proj2 (has_col_true k (tcols T))); [reflexivity|]. apply H. left. reflexivity. }
+  rewrite E. apply IH. intros k' Hk'. apply H. right. exact Hk'.
+Qed.
+Lemma map_res_find d j cs cs' n c :
+  map_res (set_cell_of d j) cs = Ok cs' -> find_col n cs = Some c ->
+  exists c', find_col n cs' = Some c' /\ set_cell_of d j c = Ok c'.
+Proof.
+  unfold find_col. revert cs'; induction cs as [|x cs IH]; intros cs' H Hf; cbn [map_res find] in *; [discriminate|].
+  destruct (set_cell_of d j x) as [x'|] eqn:Ex; cbn [bind] in H; [|discriminate].
+  destruct (map_res (set_cell_of d j) cs) as [r|] eqn:Er; cbn [bind] in H; [|discriminate].
+  inversion H; subst. cbn [find]. rewrite (set_cell_of_name _ _ _ _ Ex).
+  destruct (String.eqb n (cname x)).
+  - inversion Hf; subst. eauto.
+  - apply (IH r eq_refl Hf).
+Qed.
 
-Lemma set_row_inv n T j d T' : map_inv n T -> set_row T j d = Ok T' -> map_inv n T'.
+(* --- the row dict of the source in column_names order vs. in canonical order: same lookups, same new columns *)
+Lemma add_missing_app a b T : add_missing (a ++ b) T = add_missing b (add_missing a T).
+Proof. unfold add_missing. apply fold_left_app. Qed.
+Lemma add_missing_names_incl ks T : incl (tab_names T) (tab_names (add_missing ks T)).
+Proof. unfold tab_names. rewrite add_missing_cols, map_app. apply incl_appl, incl_refl. Qed.
+Lemma add_missing_has ks : forall T k, In k ks -> In k (tab_names (add_missing ks T)).
 Proof.
-  unfold set_row, map_inv. intros [Hl [Hd Hn]]. destruct (map_res (set_cell_of d j) (tcols T)) as [cs|] eqn:E; cbn [bind]; [|discriminate].
-  intros H; inversion H; subst. cbn [tlen tdflt with_cols]. repeat split; auto.
-  unfold tab_names in *. cbn [tcols with_cols]. rewrite (map_res_names _ _ _ _ E). exact Hn.
+  induction ks as [|a ks IH]; intros T k H; [contradiction|]. rewrite add_missing_cons. destruct H as [->|H]; [|apply IH, H].
+  apply add_missing_names_incl. apply (proj1 (has_col_true _ _)). apply add1_has.
 Qed.
-Lemma add_missing_inv n ks T : map_inv n T -> map_inv n (add_missing ks T).
+Lemma add_missing_dict_set {A} k (v : A) d T :
+  add_missing (map fst (dict_set k v d)) T = add_missing (map fst d ++ [k]) T.
 Proof.
-  unfold map_inv. intros [Hl [Hd Hn]]. rewrite add_missing_tlen, add_missing_tdflt. repeat split; auto.
-  apply add_missing_NoDup, Hn.
+  rewrite dict_set_keys. destruct (existsb (String.eqb k) (map fst d)) eqn:E; [|reflexivity].
+  rewrite add_missing_app. cbn [add_missing fold_left]. fold (add_missing (map fst d) T).
+  rewrite (proj2 (has_col_true _ _)); [reflexivity|]. apply add_missing_has. apply (proj1 (existsb_eqb_in _ _)), E.
 Qed.
-Lemma map_row_inv n f T j T' : map_inv n T -> map_row f T j = Ok T' -> map_inv n T'.
+Lemma add_missing_update {A} (u d : list (string * A)) T :
+  add_missing (map fst (dict_update d u)) T = add_missing (map fst d ++ map fst u) T.
+Proof.
+  unfold dict_update. revert d; induction u as [|[k v] u IH]; intros d; cbn [fold_left map fst snd]; [rewrite app_nil_r; reflexivity|].
+  rewrite IH, add_missing_app, add_missing_dict_set, <- add_missing_app, <- app_assoc. reflexivity.
+Qed.
+Lemma add_missing_update_known {A} (u d : list (string * A)) T :
+  (forall k, In k (map fst d) -> In k (tab_names T)) ->
+  add_missing (map fst (dict_update d u)) T = add_missing (map fst u) T.
+Proof. intros H. rewrite add_missing_update, add_missing_app, (add_missing_noop _ _ H). reflexivity. Qed.
+
+Lemma lookup_dict_set {A} k k' (v : A) d : lookup k (dict_set k' v d) = if String.eqb k k' then Some v else lookup k d.
+Proof.
+  induction d as [|[k0 v0] d IH]; cbn [dict_set lookup]; [reflexivity|].
+  destruct (String.eqb k' k0) eqn:E0; cbn [lookup].
+  - apply String.eqb_eq in E0. subst k0. destruct (String.eqb k k'); reflexivity.
+  - rewrite IH. destruct (String.eqb k k0) eqn:E1; [|reflexivity]. destruct (String.eqb k k') eqn:E2; [|reflexivity].
+    apply String.eqb_eq in E1, E2. subst. rewrite String.eqb_refl in E0. discriminate.
+Qed.
+Lemma lookup_update_ext {A} (u d1 d2 : list (string * A)) k :
+  lookup k d1 = lookup k d2 -> lookup k (dict_update d1 u) = lookup k (dict_update d2 u).
+Proof.
+  unfold dict_update. revert d1 d2; induction u as [|[k' v] u IH]; intros d1 d2 H; cbn [fold_left fst snd]; [exact H|].
+  apply IH. rewrite !lookup_dict_set, H. reflexivity.
+Qed.
+Lemma lookup_map_key {A} (h : string -> A) k l :
+  lookup k (map (fun n => (n, h n)) l) = if existsb (String.eqb k) l then Some (h k) else None.
+Proof.
+  induction l as [|a l IH]; cbn [map lookup existsb]; [reflexivity|].
+  destruct (String.eqb k a) eqn:E; cbn [orb]; [apply String.eqb_eq in E; subst; reflexivity|exact IH].
+Qed.
+Lemma set_row_ext T j d1 d2 : (forall k, lookup k d1 = lookup k d2) -> set_row T j d1 = set_row T j d2.
+Proof.
+  intros H. unfold set_row. rewrite (map_res_ext_in (set_cell_of d1 j) (set_cell_of d2 j)); [reflexivity|].
+  intros c _. unfold set_cell_of. rewrite H. reflexivity.
+Qed.
+Lemma row_dict_map (w : string -> val) l :
+  row_dict (map (fun n => (n, w n)) l) = map (fun n => (n, pyv_of_val (w n))) l.
+Proof. unfold row_dict. rewrite map_map. reflexivity. Qed.
+Lemma column_names_in k t : In k (l_column_names t) <-> In k (tab_names (l_tab t)).
+Proof. unfold l_column_names, k_to_list. destruct (l_sorted t); [apply sort_names_in|reflexivity]. Qed.
+Lemma column_names_NoDup t : NoDup (tab_names (l_tab t)) -> NoDup (l_column_names t).
+Proof. unfold l_column_names, k_to_list. destruct (l_sorted t); [apply sort_names_NoDup|auto]. Qed.
+
+(* the state of the copy while map_ runs *)
+Definition map_inv (n : nat) (src T : tab) : Prop :=
+  tlen T = n /\ tdflt T = KMixed /\ NoDup (tab_names T) /\ incl (tab_names src) (tab_names T).
+
+Lemma set_row_inv n src T j d T' : map_inv n src T -> set_row T j d = Ok T' -> map_inv n src T'.
+Proof.
+  unfold set_row, map_inv. intros [Hl [Hd [Hn Hi]]]. destruct (map_res (set_cell_of d j) (tcols T)) as [cs|] eqn:E; cbn [bind]; [|discriminate].
+  intros H; inversion H; subst. cbn [tlen tdflt with_cols]. unfold tab_names in *. cbn [tcols with_cols].
+  rewrite (map_res_names _ _ _ _ E). auto.
+Qed.
+Lemma add_missing_inv n src ks T : map_inv n src T -> map_inv n src (add_missing ks T).
+Proof.
+  unfold map_inv. intros [Hl [Hd [Hn Hi]]]. rewrite add_missing_tlen, add_missing_tdflt. repeat split; auto.
+  - apply add_missing_NoDup, Hn.
+  - eapply incl_tran; [exact Hi|apply add_missing_names_incl].
+Qed.
+Lemma map_row_inv n f src T j T' : map_inv n src T -> map_row f src T j = Ok T' -> map_inv n src T'.
 Proof. unfold map_row. intros H. apply set_row_inv, add_missing_inv, H. Qed.
 
-Lemma map_row_spec (f : row -> upd) ids T i :
-  map_inv (List.length ids) T -> i < List.length ids ->
-  l_map_row f (mk ids true T) i = lift ids true (map_row f T i).
+Lemma map_row_spec (f : row -> upd) ids (src : ltab) T i :
+  map_inv (List.length ids) (l_tab src) T -> NoDup (tab_names (l_tab src)) -> i < List.length ids -> i < l_len src ->
+  l_map_row f src (mk ids true T) (i, i) = lift ids true (map_row f (l_tab src) T i).
 Proof.
-  intros [Hl [Hd Hn]] Hi. unfold l_map_row. rewrite getrow_ok by exact Hi. cbn [bind].
-  rewrite canon_row_items. cbn [l_tab mk]. rewrite row_items_sorted.
-  unfold map_row.
-  set (d := dict_update (row_dict (read_row T i)) (f (read_row T i))).
-  assert (Hdk : NoDup (map fst d)).
-  { apply dict_update_NoDup. rewrite row_dict_keys, read_row_keys. apply sort_names_NoDup, Hn. }
-  rewrite <- (inner_fold i d T Hdk Hn).
-  apply (fold_lift (fun T' => tlen T' = List.length ids /\ tdflt T' = KMixed) (fun _ => True) ids true
-                   (fun s kv => l_row_set s i (fst kv) (snd kv))
-                   (fun T' kv => write1 (add1 (fst kv) T') i (fst kv) (snd kv))).
-  - intros T0 kv [H1 H2] _. apply row_set_spec; assumption.
-  - intros T0 kv T' [H1 H2] _ Hw. apply write1_inv in Hw. destruct Hw as [Ha [Hb _]].
-    rewrite Ha, Hb, add1_tlen, add1_tdflt. auto.
-  - auto.
-  - apply Forall_forall. auto.
+  intros [Hl [Hd [Hn Hi]]] Hsn Hlt Hlt'. unfold l_map_row. cbn [fst snd].
+  rewrite getrow_ok by exact Hlt. cbn [bind]. rewrite getrow_ok by exact Hlt'. cbn [bind].
+  rewrite canon_row_items.
+  set (r := read_row (l_tab src) i).
+  set (d1 := dict_update (row_dict (l_row_items src i)) (f r)).
+  assert (Hk1 : map fst (row_dict (l_row_items src i)) = l_column_names src).
+  { rewrite row_dict_keys. unfold l_row_items. rewrite map_map. cbn [fst]. apply map_id. }
+  assert (Hd1 : NoDup (map fst d1)).
+  { apply dict_update_NoDup. rewrite Hk1. apply column_names_NoDup, Hsn. }
+  transitivity (lift ids true (set_row (add_missing (map fst d1) T) i d1)).
+  - rewrite <- (inner_fold i d1 T Hd1 Hn).
+    apply (fold_lift (fun T' => tlen T' = List.length ids /\ tdflt T' = KMixed) (fun _ => True) ids true
+                     (fun s kv => l_row_set s i (fst kv) (snd kv))
+                     (fun T' kv => write1 (add1 (fst kv) T') i (fst kv) (snd kv))).
+    + intros T0 kv [H1 H2] _. apply row_set_spec; assumption.
+    + intros T0 kv T' [H1 H2] _ Hw. apply write1_inv in Hw. destruct Hw as [Ha [Hb _]].
+      rewrite Ha, Hb, add1_tlen, add1_tdflt. auto.
+    + auto.
+    + apply Forall_forall. auto.
+  - f_equal. unfold map_row, upd_row. fold r.
+    set (d2 := dict_update (row_dict r) (f r)).
+    assert (E1 : add_missing (map fst d1) T = add_missing (map fst (f r)) T).
+    { apply add_missing_update_known. intros k Hk. rewrite Hk1 in Hk. apply Hi. apply (proj1 (column_names_in _ _)), Hk. }
+    assert (E2 : add_missing (map fst d2) T = add_missing (map fst (f r)) T).
+    { apply add_missing_update_known. intros k Hk. unfold r in Hk. rewrite row_dict_keys, read_row_keys in Hk.
+      apply Hi. apply (proj1 (sort_names_in _ _)), Hk. }
+    rewrite E1, E2. apply set_row_ext. intros k. apply lookup_update_ext.
+    unfold r, read_row, l_row_items, l_row_get, l_cols. rewrite !row_dict_map, !lookup_map_key.
+    unfold l_column_names, k_to_list. destruct (l_sorted src); reflexivity || (rewrite existsb_sort; reflexivity).
 Qed.
 
 (* ------------------------------------------------------------------ *)
@@ -585,16 +715,22 @@ Qed.
 Lemma seq_lt n : Forall (fun i => i < n) (seq 0 n).
 Proof. apply Forall_forall. intros i Hi. apply in_seq in Hi. lia. Qed.
 
+Lemma combine_same {A} (l : list A) : combine l l = map (fun i => (i, i)) l.
+Proof. induction l as [|a l IH]; cbn [combine map]; [reflexivity|]. rewrite IH. reflexivity. Qed.
+Lemma fold_left_map_list {A B S} (g : A -> B) (step : S -> B -> S) l s :
+  fold_left step (map g l) s = fold_left (fun acc a => step acc (g a)) l s.
+Proof. revert s; induction l as [|a l IH]; intros s; cbn [map fold_left]; [reflexivity|apply IH]. Qed.
+
 Theorem map_dm_refines (f : row -> upd) (t : ltab) :
   lwf t -> l_map_dm f t = lift (l_ids t) true (map_dm f (l_tab t)).
 Proof.
   intros Hwf. pose proof Hwf as [Hl [_ [Hn _]]]. unfold l_map_dm. rewrite (copy_spec t Hwf). cbn [bind].
-  unfold map_dm. rewrite Hl. unfold l_len. cbn [l_ids mk].
-  apply (fold_lift (map_inv (List.length (l_ids t))) (fun i => i < List.length (l_ids t)) (l_ids t) true
-                   (l_map_row f) (map_row f)).
-  - intros T i HT Hi. apply map_row_spec; assumption.
+  unfold map_dm. rewrite Hl. unfold l_len. cbn [l_ids mk]. rewrite combine_same, fold_left_map_list.
+  apply (fold_lift (map_inv (List.length (l_ids t)) (l_tab t)) (fun i => i < List.length (l_ids t)) (l_ids t) true
+                   (fun s i => l_map_row f t s (i, i)) (fun T i => map_row f (l_tab t) T i)).
+  - intros T i HT Hi. apply map_row_spec; auto.
   - intros T i T' HT _ Hm. eapply map_row_inv; eauto.
-  - unfold map_inv, derived. cbn [tlen tdflt]. unfold tab_names in *. cbn [tcols]. auto.
+  - unfold map_inv, derived. cbn [tlen tdflt]. unfold tab_names in *. cbn [tcols]. repeat split; auto. apply incl_refl.
   - apply seq_lt.
 Qed.
 
@@ -1038,18 +1174,18 @@ Proof.
   intros H; inversion H; subst. split; [reflexivity|]. exists []. cbn [tcols with_cols]. rewrite app_nil_r.
   split; [apply (map_res_shape _ _ _ _ E)|constructor].
 Qed.
-Lemma map_row_extends f T j T' : map_row f T j = Ok T' -> extends T T'.
+Lemma map_row_extends f src T j T' : map_row f src T j = Ok T' -> extends T T'.
 Proof.
   unfold map_row. intros H. eapply extends_trans; [apply add_missing_extends|]. eapply set_row_extends, H.
 Qed.
 Theorem map_dm_shape (f : row -> upd) (T T' : tab) : map_dm f T = Ok T' -> extends T T' /\ tdflt T' = KMixed.
 Proof.
   unfold map_dm. intros H.
-  assert (G : forall js T0 T1, fold_left (fun acc j => bind acc (fun t' => map_row f t' j)) js (Ok T0) = Ok T1 ->
+  assert (G : forall js T0 T1, fold_left (fun acc j => bind acc (fun t' => map_row f T t' j)) js (Ok T0) = Ok T1 ->
                                 extends T0 T1 /\ tdflt T1 = tdflt T0).
   { induction js as [|j js IH]; intros T0 T1 Hf; cbn [fold_left bind] in Hf.
     - inversion Hf; subst. split; [apply extends_refl|reflexivity].
-    - destruct (map_row f T0 j) as [Tm|e] eqn:Em; [|rewrite fold_bind_raise in Hf; discriminate].
+    - destruct (map_row f T T0 j) as [Tm|e] eqn:Em; [|rewrite fold_bind_raise in Hf; discriminate].
       destruct (IH _ _ Hf) as [He Hd]. split; [eapply extends_trans; [eapply map_row_extends, Em|exact He]|].
       rewrite Hd. unfold map_row, set_row in Em.
       destruct (map_res _ _) as [cs|]; cbn [bind] in Em; [|discriminate]. inversion Em; subst. cbn [tdflt with_cols].
@@ -1082,131 +1218,173 @@ Proof.
 Qed.
 
 (* ------------------------------------------------------------------ *)
-(* 14. map_ when f returns no new keys: every cell of the result is the  *)
-(*     normal form of that key in the SOURCE row updated with f          *)
+(* 14. map_ cell by cell: row j of the result is the source row j        *)
+(*     updated with f of that row; an absent key leaves ''               *)
 (* ------------------------------------------------------------------ *)
-Definition upd_row (f : row -> upd) (T : tab) (j : nat) : upd :=
-  dict_update (row_dict (read_row T j)) (f (read_row T j)).
-Definition closed (f : row -> upd) (T : tab) : Prop :=
-  forall r k, In k (map fst (f r)) -> In k (tab_names T).
+Definition kind_of (T : tab) (n : string) : kind :=
+  match find_col n (tcols T) with Some c => ckind c | None => KMixed end.
+Definition src_cell (T : tab) (n : string) (j : nat) : val :=
+  match find_col n (tcols T) with Some c => cell_at j c | None => VStr "" end.
+(* what row j says about the cell of column n: the normal form of the value under key n, '' if there is none *)
+Definition cell_ok (f : row -> upd) (T : tab) (n : string) (j : nat) (k : kind) (x : val) : Prop :=
+  match lookup n (upd_row f T j) with Some v => nf k v = Ok x | None => x = VStr "" end.
 
-Lemma nth_set_nth_same {A} i (x d : A) l : i < List.length l -> nth i (set_nth i x l) d = x.
-Proof. revert i; induction l as [|a l IH]; intros [|i] H; cbn [set_nth nth List.length] in *; try lia; auto. apply IH. lia. Qed.
-Lemma nth_set_nth_other {A} i j (x d : A) l : i <> j -> nth j (set_nth i x l) d = nth j l d.
+Lemma nth_repeat_lt {A} (a d : A) n j : j < n -> nth j (repeat a n) d = a.
+Proof. revert j; induction n as [|n IH]; intros [|j] H; cbn [repeat nth]; try lia; auto. apply IH. lia. Qed.
+Lemma lookup_some_in {A} k (d : list (string * A)) v : lookup k d = Some v -> In k (map fst d).
 Proof.
-  revert i j; induction l as [|a l IH]; intros [|i] [|j] H; cbn [set_nth nth]; try reflexivity; try lia.
-  apply IH. lia.
+  induction d as [|[k' v'] d IH]; cbn [lookup map fst]; [discriminate|].
+  destruct (String.eqb k k') eqn:E.
+  - apply String.eqb_eq in E. intros _. left. symmetry. exact E.
+  - intros H. right. apply IH, H.
 Qed.
-
-Lemma dict_update_keys_incl {A} (u d : list (string * A)) k :
-  In k (map fst (dict_update d u)) -> In k (map fst d) \/ In k (map fst u).
+Lemma map_res_find_rev d j cs cs' n c' :
+  map_res (set_cell_of d j) cs = Ok cs' -> find_col n cs' = Some c' ->
+  exists c, find_col n cs = Some c /\ set_cell_of d j c = Ok c'.
 Proof.
-  unfold dict_update. revert d; induction u as [|[k' v] u IH]; intros d H; cbn [fold_left map fst snd] in *; [auto|].
-  destruct (IH _ H) as [H1|H1]; [|right; right; exact H1]. rewrite dict_set_keys in H1.
-  destruct (existsb (String.eqb k') (map fst d)); [left; exact H1|]. apply in_app_or in H1. destruct H1 as [H1|H1].
-  - left. exact H1.
-  - right. left. destruct H1 as [H1|[]]. exact H1.
+  unfold find_col. revert cs'; induction cs as [|x cs IH]; intros cs' H Hf; cbn [map_res] in H.
+  - inversion H; subst. discriminate.
+  - destruct (set_cell_of d j x) as [x'|] eqn:Ex; cbn [bind] in H; [|discriminate].
+    destruct (map_res (set_cell_of d j) cs) as [r|] eqn:Er; cbn [bind] in H; [|discriminate].
+    inversion H; subst. cbn [find] in *. rewrite (set_cell_of_name _ _ _ _ Ex) in Hf.
+    destruct (String.eqb n (cname x)).
+    + inversion Hf; subst. eauto.
+    + apply (IH r eq_refl Hf).
 Qed.
-Lemma dict_update_keys_keep {A} (u d : list (string * A)) k :
-  In k (map fst d) -> In k (map fst (dict_update d u)).
+Lemma find_fresh n len : forall ks names, existsb (String.eqb n) names = false ->
+  find_col n (fresh_cols ks names len) = if existsb (String.eqb n) ks then Some (new_col len n) else None.
 Proof.
-  unfold dict_update. revert d; induction u as [|[k' v] u IH]; intros d H; cbn [fold_left fst snd]; [exact H|].
-  apply IH. rewrite dict_set_keys. destruct (existsb (String.eqb k') (map fst d)); [exact H|]. apply in_or_app. auto.
+  induction ks as [|k ks IH]; intros names Hn; cbn [fresh_cols existsb]; [reflexivity|].
+  destruct (existsb (String.eqb k) names) eqn:Ek.
+  - destruct (String.eqb n k) eqn:E; [apply String.eqb_eq in E; subst; congruence|]. cbn [orb]. apply IH, Hn.
+  - unfold find_col. cbn [find new_col cname]. destruct (String.eqb n k) eqn:E; cbn [orb].
+    + apply String.eqb_eq in E. subst. reflexivity.
+    + apply IH. rewrite existsb_app, Hn. cbn [existsb orb]. rewrite E. reflexivity.
 Qed.
-Lemma lookup_in {A} k (d : list (string * A)) : In k (map fst d) -> exists v, lookup k d = Some v.
+Lemma find_col_add_missing n ks T :
+  find_col n (tcols (add_missing ks T))
+  = match find_col n (tcols T) with
+    | Some c => Some c
+    | None => if existsb (String.eqb n) ks then Some (new_col (tlen T) n) else None
+    end.
 Proof.
-  induction d as [|[k' v] d IH]; cbn [map fst lookup]; [contradiction|]. intros [->|H].
-  - rewrite String.eqb_refl. eauto.
-  - destruct (String.eqb k k'); [eauto|exact (IH H)].
-Qed.
-Lemma find_col_in_names n cs : In n (map cname cs) -> exists c, find_col n cs = Some c.
-Proof.
-  intros H. apply (proj2 (has_col_true _ _)) in H. unfold has_col in H. destruct (find_col n cs); [eauto|discriminate].
-Qed.
-
-Lemma add_missing_noop ks T : (forall k, In k ks -> In k (tab_names T)) -> add_missing ks T = T.
-Proof.
-  induction ks as [|k ks IH]; intros H; [reflexivity|]. rewrite add_missing_cons.
-  assert (E : add1 k T = T).
-  { unfold add1. rewrite (proj2 (has_col_true k (tcols T))); [reflexivity|]. apply H. left. reflexivity. }
-  rewrite E. apply IH. intros k' Hk'. apply H. right. exact Hk'.
-Qed.
-
-Lemma map_res_find d j cs cs' n c :
-  map_res (set_cell_of d j) cs = Ok cs' -> find_col n cs = Some c ->
-  exists c', find_col n cs' = Some c' /\ set_cell_of d j c = Ok c'.
-Proof.
-  unfold find_col. revert cs'; induction cs as [|x cs IH]; intros cs' H Hf; cbn [map_res find] in *; [discriminate|].
-  destruct (set_cell_of d j x) as [x'|] eqn:Ex; cbn [bind] in H; [|discriminate].
-  destruct (map_res (set_cell_of d j) cs) as [r|] eqn:Er; cbn [bind] in H; [|discriminate].
-  inversion H; subst. cbn [find]. rewrite (set_cell_of_name _ _ _ _ Ex).
-  destruct (String.eqb n (cname x)).
-  - inversion Hf; subst. eauto.
-  - apply (IH r eq_refl Hf).
+  rewrite add_missing_cols. destruct (find_col n (tcols T)) as [c|] eqn:E.
+  - apply find_col_app_l, E.
+  - rewrite (find_col_app_r _ _ _ E). apply find_fresh. unfold tab_names. rewrite has_col_existsb. unfold has_col. rewrite E. reflexivity.
 Qed.
 
-(* state after the rows below m have been processed *)
+Lemma upd_row_source_key f T n j : In n (tab_names T) -> exists v, lookup n (upd_row f T j) = Some v.
+Proof.
+  intros H. apply lookup_in. unfold upd_row. apply dict_update_keys_keep. rewrite row_dict_keys, read_row_keys.
+  apply (proj2 (sort_names_in _ _)), H.
+Qed.
+Lemma upd_row_new_key f T n j : In n (map fst (upd_row f T j)) -> ~ In n (tab_names T) -> In n (map fst (f (read_row T j))).
+Proof.
+  intros H Hn. unfold upd_row in H. apply dict_update_keys_incl in H. destruct H as [H|H]; [|exact H].
+  rewrite row_dict_keys, read_row_keys in H. apply (proj1 (sort_names_in _ _)) in H. contradiction.
+Qed.
+
+(* the copy after the rows below m have been written *)
 Definition minv (f : row -> upd) (T : tab) (m : nat) (Tm : tab) : Prop :=
-  tlen Tm = tlen T /\ tab_names Tm = tab_names T /\
-  forall n c, find_col n (tcols T) = Some c ->
-    exists cm, find_col n (tcols Tm) = Some cm /\ ckind cm = ckind c /\
-      List.length (ccells cm) = List.length (ccells c) /\
-      (forall j, j < m -> exists v, lookup n (upd_row f T j) = Some v /\ nf (ckind c) v = Ok (cell_at j cm)) /\
-      (forall j, m <= j -> cell_at j cm = cell_at j c).
-
-Lemma minv_read_row f T m Tm : minv f T m Tm -> read_row Tm m = read_row T m.
-Proof.
-  intros [_ [Hn H]]. unfold read_row. rewrite Hn. apply map_ext_in. intros n Hin. f_equal.
-  apply (proj1 (sort_names_in _ _)) in Hin. destruct (find_col_in_names _ _ Hin) as [c Hc].
-  destruct (H n c Hc) as [cm [Hcm [_ [_ [_ Hrest]]]]]. rewrite Hcm, Hc. apply Hrest. lia.
-Qed.
+  tlen Tm = tlen T /\ NoDup (tab_names Tm) /\ incl (tab_names T) (tab_names Tm) /\
+  (forall j k, j < m -> In k (map fst (upd_row f T j)) -> In k (tab_names Tm)) /\
+  forall n cm, find_col n (tcols Tm) = Some cm ->
+    ckind cm = kind_of T n /\ List.length (ccells cm) = tlen T /\
+    (find_col n (tcols T) = None -> exists j, j < m /\ In n (map fst (f (read_row T j)))) /\
+    (forall j, j < m -> cell_ok f T n j (ckind cm) (cell_at j cm)) /\
+    (forall j, m <= j -> j < tlen T -> cell_at j cm = src_cell T n j).
 
 Lemma minv_step f T m Tm Tm' :
-  twf T -> closed f T -> m < tlen T -> minv f T m Tm -> map_row f Tm m = Ok Tm' -> minv f T (S m) Tm'.
+  m < tlen T -> minv f T m Tm -> map_row f T Tm m = Ok Tm' -> minv f T (S m) Tm'.
 Proof.
-  intros [Hnd Hlen] Hcl Hm Hinv Hstep. pose proof (minv_read_row _ _ _ _ Hinv) as Hrr.
-  destruct Hinv as [Hl [Hn H]]. unfold map_row in Hstep. rewrite Hrr in Hstep. fold (upd_row f T m) in Hstep.
-  assert (Hkeys : forall k, In k (map fst (upd_row f T m)) -> In k (tab_names Tm)).
-  { intros k Hk. rewrite Hn. unfold upd_row in Hk. apply dict_update_keys_incl in Hk. destruct Hk as [Hk|Hk].
-    - rewrite row_dict_keys, read_row_keys in Hk. apply (proj1 (sort_names_in _ _)) in Hk. exact Hk.
-    - eapply Hcl, Hk. }
-  rewrite (add_missing_noop _ _ Hkeys) in Hstep. unfold set_row in Hstep.
-  destruct (map_res (set_cell_of (upd_row f T m) m) (tcols Tm)) as [cs|] eqn:E; cbn [bind] in Hstep; [|discriminate].
-  inversion Hstep; subst Tm'. clear Hstep. unfold minv. cbn [tlen tcols with_cols]. split; [exact Hl|]. split.
-  { unfold tab_names in *. cbn [tcols with_cols]. rewrite (map_res_names _ _ _ _ E). exact Hn. }
-  intros n c Hc. destruct (H n c Hc) as [cm [Hcm [Hk [Hlen' [Hlow Hhigh]]]]].
-  destruct (map_res_find _ _ _ _ _ _ E Hcm) as [c' [Hc' Hset]]. exists c'. split; [exact Hc'|].
-  destruct (find_col_some _ _ _ Hc) as [Hcin Hcn]. destruct (find_col_some _ _ _ Hcm) as [_ Hcmn].
-  assert (Hin : In n (map fst (upd_row f T m))).
-  { unfold upd_row. apply dict_update_keys_keep. rewrite row_dict_keys, read_row_keys.
-    apply (proj2 (sort_names_in _ _)). unfold tab_names. rewrite <- Hcn. apply in_map. exact Hcin. }
-  destruct (lookup_in _ _ Hin) as [v Hv]. unfold set_cell_of in Hset. rewrite Hcmn, Hv in Hset.
-  destruct (nf (ckind cm) v) as [x|] eqn:En; cbn [bind] in Hset; [|discriminate]. inversion Hset; subst c'. clear Hset.
-  cbn [ckind ccells with_cells]. rewrite set_nth_length. repeat split; auto.
-  - intros j Hj. unfold cell_at. cbn [ccells with_cells]. destruct (Nat.eq_dec j m) as [->|Hne].
-    + exists v. split; [exact Hv|]. rewrite nth_set_nth_same; [rewrite <- Hk; exact En|].
-      rewrite Hlen'. rewrite Forall_forall in Hlen. rewrite (Hlen c Hcin). exact Hm.
-    + rewrite nth_set_nth_other by lia. apply Hlow. lia.
-  - intros j Hj. unfold cell_at. cbn [ccells with_cells]. rewrite nth_set_nth_other by lia. apply Hhigh. lia.
+  intros Hm [Hl [Hnd [Hincl [Hkeys H]]]] Hstep. unfold map_row in Hstep.
+  set (d := upd_row f T m) in *. set (Ta := add_missing (map fst d) Tm) in *.
+  unfold set_row in Hstep. destruct (map_res (set_cell_of d m) (tcols Ta)) as [cs|] eqn:E; cbn [bind] in Hstep; [|discriminate].
+  inversion Hstep; subst Tm'. clear Hstep.
+  assert (Hnames : tab_names (with_cols Ta cs) = tab_names Ta).
+  { unfold tab_names. cbn [tcols with_cols]. apply (map_res_names _ _ _ _ E). }
+  unfold minv. rewrite Hnames. cbn [tlen with_cols].
+  split; [unfold Ta; rewrite add_missing_tlen; exact Hl|].
+  split; [unfold Ta; apply add_missing_NoDup, Hnd|].
+  split; [eapply incl_tran; [exact Hincl|apply add_missing_names_incl]|].
+  split.
+  { intros j k Hj Hk. destruct (Nat.eq_dec j m) as [->|Hne].
+    - unfold Ta. apply add_missing_has. exact Hk.
+    - apply add_missing_names_incl. apply (Hkeys j k); [lia|exact Hk]. }
+  intros n c' Hc'. cbn [tcols with_cols] in Hc'.
+  destruct (map_res_find_rev _ _ _ _ _ _ E Hc') as [x [Hx Hset]].
+  unfold Ta in Hx. rewrite find_col_add_missing in Hx.
+  destruct (find_col n (tcols Tm)) as [cm|] eqn:Ecm.
+  - (* a column the copy already had *)
+    inversion Hx; subst x. clear Hx. destruct (H n cm Ecm) as [Hk [Hlen [Hnew [Hlow Hhigh]]]].
+    destruct (find_col_some _ _ _ Ecm) as [_ Hcmn].
+    unfold set_cell_of in Hset. rewrite Hcmn in Hset.
+    destruct (lookup n d) as [v|] eqn:Ev.
+    + destruct (nf (ckind cm) v) as [y|] eqn:En; cbn [bind] in Hset; [|discriminate]. inversion Hset; subst c'. clear Hset.
+      cbn [ckind ccells with_cells]. rewrite set_nth_length. repeat split; auto.
+      * intros Hnone. destruct (Hnew Hnone) as [j [Hj Hin]]. exists j. split; [lia|exact Hin].
+      * intros j Hj. unfold cell_at. cbn [ccells with_cells]. destruct (Nat.eq_dec j m) as [->|Hne].
+        -- unfold cell_ok. fold d. rewrite Ev. rewrite nth_set_nth_same by lia. exact En.
+        -- rewrite nth_set_nth_other by lia. apply Hlow. lia.
+      * intros j Hj Hj'. unfold cell_at. cbn [ccells with_cells]. rewrite nth_set_nth_other by lia. apply Hhigh; lia.
+    + inversion Hset; subst c'. clear Hset. repeat split; auto.
+      * intros Hnone. destruct (Hnew Hnone) as [j [Hj Hin]]. exists j. split; [lia|exact Hin].
+      * intros j Hj. destruct (Nat.eq_dec j m) as [->|Hne]; [|apply Hlow; lia].
+        unfold cell_ok. fold d. rewrite Ev. rewrite (Hhigh m (le_n _) Hm). unfold src_cell.
+        destruct (find_col n (tcols T)) as [c|] eqn:Ec; [|reflexivity].
+        destruct (find_col_some _ _ _ Ec) as [Hcin Hcn].
+        destruct (upd_row_source_key f T n m) as [v Hv]; [unfold tab_names; rewrite <- Hcn; apply in_map, Hcin|].
+        fold d in Hv. congruence.
+      * intros j Hj Hj'. apply Hhigh; lia.
+  - (* a column created for this row *)
+    destruct (existsb (String.eqb n) (map fst d)) eqn:Eex; [|discriminate]. inversion Hx; subst x. clear Hx.
+    apply (proj1 (existsb_eqb_in _ _)) in Eex.
+    assert (HnT : find_col n (tcols T) = None).
+    { destruct (find_col n (tcols T)) as [c|] eqn:Ec; [|reflexivity]. exfalso.
+      destruct (find_col_some _ _ _ Ec) as [Hcin Hcn].
+      apply (find_col_none _ _ Ecm). apply Hincl. unfold tab_names. rewrite <- Hcn. apply in_map, Hcin. }
+    destruct (lookup_in _ _ Eex) as [v Hv].
+    unfold set_cell_of in Hset. cbn [cname new_col] in Hset. rewrite Hv in Hset. change (ckind (new_col (tlen Tm) n)) with KMixed in Hset.
+    destruct (nf KMixed v) as [y|] eqn:En; cbn [bind] in Hset; [|discriminate]. inversion Hset; subst c'. clear Hset.
+    cbn [ckind ccells with_cells new_col]. rewrite set_nth_length, repeat_length. unfold kind_of. rewrite HnT.
+    repeat split; auto.
+    + intros _. exists m. split; [lia|]. apply (upd_row_new_key f T n m Eex). apply find_col_none, HnT.
+    + intros j Hj. unfold cell_at. cbn [ccells with_cells]. destruct (Nat.eq_dec j m) as [->|Hne].
+      * unfold cell_ok. fold d. rewrite Hv. rewrite nth_set_nth_same by (rewrite repeat_length; lia). exact En.
+      * rewrite nth_set_nth_other by lia. rewrite nth_repeat_lt by lia. unfold cell_ok.
+        destruct (lookup n (upd_row f T j)) as [w|] eqn:Ew; [|reflexivity]. exfalso.
+        apply (find_col_none _ _ Ecm). apply (Hkeys j n); [lia|]. eapply lookup_some_in, Ew.
+    + intros j Hj Hj'. unfold cell_at, src_cell. cbn [ccells with_cells]. rewrite HnT.
+      rewrite nth_set_nth_other by lia. apply nth_repeat_lt. lia.
 Qed.
 
-Theorem map_dm_closed (f : row -> upd) (T T' : tab) :
-  twf T -> closed f T -> map_dm f T = Ok T' ->
-  tlen T' = tlen T /\ tab_names T' = tab_names T /\
-  forall n c, find_col n (tcols T) = Some c ->
-    exists c', find_col n (tcols T') = Some c' /\ ckind c' = ckind c /\ List.length (ccells c') = List.length (ccells c) /\
-      forall j, j < tlen T -> exists v, lookup n (upd_row f T j) = Some v /\ nf (ckind c) v = Ok (cell_at j c').
+Theorem map_dm_rows (f : row -> upd) (T T' : tab) :
+  twf T -> map_dm f T = Ok T' ->
+  tlen T' = tlen T /\ NoDup (tab_names T') /\ incl (tab_names T) (tab_names T') /\
+  (forall n j, In n (tab_names T) -> exists v, lookup n (upd_row f T j) = Some v) /\
+  forall n c', find_col n (tcols T') = Some c' ->
+    ckind c' = kind_of T n /\ List.length (ccells c') = tlen T /\
+    (find_col n (tcols T) = None -> exists j, j < tlen T /\ In n (map fst (f (read_row T j)))) /\
+    forall j, j < tlen T -> cell_ok f T n j (ckind c') (cell_at j c').
 Proof.
-  intros Hwf Hcl H. unfold map_dm in H.
+  intros [Hnd Hlen] H. unfold map_dm in H.
   assert (G : forall k s Ts Te, s + k <= tlen T -> minv f T s Ts ->
-              fold_left (fun acc j => bind acc (fun t' => map_row f t' j)) (seq s k) (Ok Ts) = Ok Te -> minv f T (s + k) Te).
+              fold_left (fun acc j => bind acc (fun t' => map_row f T t' j)) (seq s k) (Ok Ts) = Ok Te -> minv f T (s + k) Te).
   { induction k as [|k IH]; intros s Ts Te Hs Hi Hf; cbn [seq fold_left bind] in Hf.
     - inversion Hf; subst. rewrite Nat.add_0_r. exact Hi.
-    - destruct (map_row f Ts s) as [Tn|e] eqn:Es; [|rewrite fold_bind_raise in Hf; discriminate].
+    - destruct (map_row f T Ts s) as [Tn|e] eqn:Es; [|rewrite fold_bind_raise in Hf; discriminate].
       replace (s + S k) with (S s + k) by lia. apply (IH (S s) Tn Te); [lia| |exact Hf].
       eapply minv_step; eauto. lia. }
   assert (H0 : minv f T 0 (derived T)).
-  { unfold minv, derived, tab_names. cbn [tlen tcols]. repeat split. intros n c Hc. exists c. repeat split; auto. intros j Hj. lia. }
+  { unfold minv, derived, tab_names. cbn [tlen tcols]. split; [reflexivity|]. split; [exact Hnd|]. split; [apply incl_refl|].
+    split; [intros j k Hj; lia|]. intros n cm Hc. unfold kind_of, src_cell. rewrite Hc.
+    destruct (find_col_some _ _ _ Hc) as [Hin _]. rewrite Forall_forall in Hlen.
+    repeat split; auto; try discriminate. intros j Hj. lia. }
   specialize (G (tlen T) 0 (derived T) T' (le_n _) H0 H). cbn [Nat.add] in G.
-  destruct G as [G1 [G2 G3]]. repeat split; auto. intros n c Hc. destruct (G3 n c Hc) as [c' [A [B [C [D _]]]]]. eauto 10.
+  destruct G as [G1 [G2 [G3 [_ G5]]]]. repeat split; auto.
+  - intros n j Hn. apply upd_row_source_key, Hn.
+  - apply (G5 n c' H1).
+  - apply (G5 n c' H1).
+  - apply (G5 n c' H1).
+  - intros j Hj. apply (G5 n c' H1). exact Hj.
 Qed.
